@@ -41,6 +41,8 @@ def rules(ctx):
                       "empties self on every path before rebuilding", floor=14)
     ctx.rule('R05.3', "single canonical write path: squash_key -> zero-drop -> dict; no bypass", floor=14)
     ctx.rule('R05.4', "quadratic classes reject keys with more than two labels of their own kind", floor=4)
+    ctx.rule('R05.6', "equality of models is dict equality of their canonical terms (no __eq__/__ne__/__hash__ override "
+                      "in the model hierarchy)", floor=1)
     ctx.rule('R05.5', "value / solve_bruteforce dispatch to the functions of the class's own kind", floor=8)
     da = P.cls('DictArithmetic')
 
@@ -240,6 +242,19 @@ def rules(ctx):
                 ctx.inst('R05.3', fn, c, False, "%s stores into a model's dict without canonicalisation / zero-drop" % by)
     ctx.inst('R05.3', ('qubovert', ''), 'no bypass of the write path', nby == 0,
              "no dict.__setitem__ / setdefault / super().__setitem__ outside the overrides", nontrivial=False)
+
+    # ---------------------------------------------------------------- R05.6
+    ov = []
+    for c in P.subclasses_of('DictArithmetic'):
+        for nm in ('__eq__', '__ne__', '__hash__', '__lt__', '__le__', '__gt__', '__ge__'):
+            if nm in c.methods:
+                ov.append(c.methods[nm])
+    for m in ov:
+        ctx.inst('R05.6', m, 'def %s' % m.name, False,
+                 "%s overrides %s: models with identical canonical terms need no longer compare equal (caches such as "
+                 "num_binary_variables are only upper bounds)" % (m.cls.name, m.name))
+    ctx.inst('R05.6', (da.module.relpath, 'DictArithmetic'), 'comparison dunders', not ov,
+             "comparison is inherited from dict", nontrivial=False)
 
     # ---------------------------------------------------------------- R05.4
     for c, spin in (('QUBO', False), ('QUSO', True), ('QUBOMatrix', False), ('QUSOMatrix', True)):
